@@ -8,7 +8,8 @@ function, so that harness/pycode.py can compare it with the real Python function
 
 Argument atoms (no spaces): `n` None, `t` / `f` booleans, `i<decimal>` int, `b<hex>` bytes (`b-` empty),
 `s<hex of the UTF-8 text>` str (`s-` empty), `L<atom>,<atom>…` list (`L` empty), `T…` tuple,
-`D<keyhex>=<atom>,…` dict with string keys.  Containers hold scalars only.
+`D<keyhex>=<atom>,…` dict with string keys.  Containers hold scalars only.  `S…` / `H…`: the instance of a
+stateful method (see `parseArg`, `parseArg'`); a stateful method answers its result only.
 Answer: `ok <value> <rest of the stream>` or `err <exception class> <rest of the stream>`.
 -/
 namespace PlumVerif.PyCode
@@ -42,7 +43,24 @@ def parseArg (a : String) : Option V :=
       | [k, v] => do pure ((← parseStr k), (← parseScalar v))
       | _ => none)
     pure (.dict (kvs.map (·.1)) (kvs.map (·.2)))
+  -- the instance of a stateful method: `S<attr>=<scalar>,…` (plain attribute names; `S` alone: no attribute yet)
+  | 'S' :: r => do
+    let s := String.ofList r
+    let kvs ← (if s = "" then some [] else (s.splitOn ",").mapM fun kv =>
+      match kv.splitOn "=" with
+      | [k, v] => do pure (k, (← parseScalar v))
+      | _ => none)
+    pure (mkobj "self" kvs)
   | _ => parseScalar a
+
+/-- `H<atom>`: the instance of a structure whose `frame.handler` is the atom (`n`, or the owning device as the dict
+of its data `D…`) -/
+def parseArg' (a : String) : Option V :=
+  match a.toList with
+  | 'H' :: r => do
+    let h ← parseArg (String.ofList r)
+    pure (mkobj "self" [("frame", mkobj "FrameRef" [("handler", h)])])
+  | _ => parseArg a
 
 def hexStr (s : String) : String := showHex s.toUTF8.toList
 
@@ -65,7 +83,7 @@ def pyOps : List String → Option String
   | "py" :: name :: fuel :: stream :: args => do
     let fuel ← fuel.toNat?
     let s ← parseHex stream
-    let vs ← args.mapM parseArg
+    let vs ← args.mapM parseArg'
     let m ← call name fuel vs
     match m s with
     | (.ok v, rest) => pure s!"ok {showV v} {showHex rest}"
